@@ -1,4 +1,54 @@
 #!/bin/bash
-# placeholder until the Miri engine is wired in: reports "not run"
-echo '{"ran": false, "reason": "miri engine not yet wired in"}'
+# tools/miri_engine.sh <tier>            second engine of C15 (thorough tier)
+# tools/miri_engine.sh replay <ws> <k>   re-run workload seed <ws> under Miri schedule seed <k>
+# The C15 scenario with plain std::thread and no installed hook, interpreted by Miri with its own
+# seeded scheduler (preempts at basic-block granularity, owns std locks/atomics, flags data races).
+# stdout: JSON summary. exit 0 ok, 1 violation (writes /verif/replays/C15-miri.json), 2 harness error.
+set -u
+export CARGO_NET_OFFLINE=true
+cd /verif/sim
+SEED="${VERIF_SEED:-20260101}"
+RATE=0.05
+run_miri() { # <flags> <workload seed> -> log on stdout, miri's status
+  MIRIFLAGS="$1 -Zmiri-preemption-rate=$RATE" cargo +nightly miri run --offline --bin verifsim_mt -- miri-scenario "$2" 2>&1
+}
+if [ "${1:-}" = "replay" ]; then
+  run_miri "-Zmiri-seed=$3" "$2"
+  exit $?
+fi
+tier="${1:-thorough}"
+if [ "$tier" = "thorough" ]; then W="${VERIF_MIRI_WORKLOADS:-4}"; N="${VERIF_MIRI_SEEDS:-64}"; else W="${VERIF_MIRI_WORKLOADS:-1}"; N="${VERIF_MIRI_SEEDS:-16}"; fi
+start=$(date +%s)
+ok=0
+for i in $(seq 1 "$W"); do
+  ws=$(( (SEED % 1000000) * 100 + i ))
+  log=/verif/target/miri-$ws.log
+  run_miri "-Zmiri-many-seeds=0..$N" "$ws" > "$log"
+  code=$?
+  if [ $code -ne 0 ]; then
+    failing=$(grep -o "FAILING SEED: [0-9]*" "$log" | grep -o "[0-9]*" | sort -n | tr '\n' ' ')
+    if grep -qE "VIOLATION property=C15|Undefined Behavior|Data race detected|data race" "$log"; then
+      first=$(echo $failing | cut -d' ' -f1)
+      python3 - "$ws" "$first" "$failing" "$log" <<'PY'
+import json,sys
+ws,first,failing,log=sys.argv[1:5]
+text=open(log).read()
+keep=[l for l in text.splitlines() if ("VIOLATION" in l or "error" in l.lower() or "race" in l.lower() or "FAILING" in l)][:40]
+cls="data-race-or-ub" if ("Undefined Behavior" in text or "ata race" in text) else "concurrent!=sequential"
+json.dump({"property":"C15","engine":"miri","class":cls,"workload_seed":int(ws),"miri_seed":int(first or 0),
+ "failing_miri_seeds":[int(x) for x in failing.split()],"replay":"tools/miri_engine.sh replay %s %s"%(ws,first),
+ "signature":"miri|%s|ws=%s"%(cls,ws),"log_excerpt":keep,"minimised":False,
+ "note":"Miri exposes no schedule to edit; the replay is (workload seed, -Zmiri-seed)"},
+ open("/verif/replays/C15-miri.json","w"),indent=1)
+PY
+      echo "{\"ran\": true, \"violation\": true, \"workload_seed\": $ws, \"failing_miri_seeds\": \"$failing\"}"
+      exit 1
+    fi
+    echo "{\"ran\": false, \"reason\": \"miri failed without a verdict, see $log\"}"
+    exit 2
+  fi
+  ok=$((ok + $(grep -c "miri-scenario: ok" "$log")))
+done
+end=$(date +%s)
+echo "{\"ran\": true, \"violation\": false, \"workloads\": $W, \"miri_seeds_per_workload\": $N, \"interpreted_runs_ok\": $ok, \"preemption_rate\": $RATE, \"wall_s\": $((end-start)), \"engine\": \"cargo +nightly miri run, -Zmiri-many-seeds, plain std::thread, no hooks installed\"}"
 exit 0
